@@ -29,7 +29,7 @@ EXPLANATION = ('Borrow discipline decided structurally: a compile-fail witness t
                'allocator-assigned field and that every function-local allocation reaches a release/hand-over on every non-exempt '
                'path (this covers the failed-gr_make_face exits); the C09 rules that the lazy table users are dead after preloadAll.  '
                'Allocator balance as a number is NOT decided.')
-FLOORS = {'NOESCAPE': 60, 'WIT': 3, 'TABLETS': 11, 'NOCALLBACK': 4, 'OWNFIELD': 40, 'OWNLOCAL': 12, 'PRELOAD': 2, 'NAMEPRELOAD': 2}
+FLOORS = {'NOESCAPE': 60, 'WIT': 3, 'TABLETS': 12, 'NOCALLBACK': 4, 'OWNFIELD': 40, 'OWNLOCAL': 12, 'PRELOAD': 2, 'NAMEPRELOAD': 2}
 
 ALLOC_FNS = ('graphite2::gralloc', 'graphite2::grzeroalloc', 'malloc', 'calloc', 'realloc')
 
@@ -140,6 +140,16 @@ def flagpair(run, fx):
 
 def tablets(run, fx):
     flagpair(run, fx)
+    inst_ = 'every buffer goes back exactly once, the right way (Table life cycle interpreted)'
+    try:
+        from . import ordint as O_
+        cases_, bad_ = table_exec(run, fx)
+        if bad_:
+            run.violated('TABLETS', inst_, fx.one('graphite2::Face::Table::release').where(), bad_)
+        else:
+            run.held('TABLETS', inst_, fx.one('graphite2::Face::Table::release').where(), '%d life cycles' % cases_)
+    except (AnalysisBroken, O_.AnalysisBroken) as ex:
+        run.broken('TABLETS', inst_, str(ex), '')
     T = 'graphite2::Face::Table'
     rec = fx.record(T)
     fields = [f['n'] for f in rec['fields']]
@@ -1002,3 +1012,116 @@ def run(run):
         finally:
             run.cfg_tag = ''
     run.assume('allocation failure is outside the quantifier (histories, configurations, inputs)')
+
+
+def table_exec(run, fx):
+    """TABLETS by bounded execution (rules/ordint.py): the whole life of a Face::Table -- constructor (with the application's get_table
+    and TtfUtil::CheckTable as natives), decompress (allocator, lz4::decompress as natives), move-assignment over another live table,
+    destructor -- is interpreted for every combination of: get_table answers null / a buffer; CheckTable accepts / rejects; the table's
+    version word asks for decompression or not; scheme NONE / LZ4 / unknown; the decoder succeeds / fails; the decoded version word
+    matches / differs; and the table is destroyed directly or first moved into another table that holds a plain or a decompressed
+    buffer.  At the end every buffer obtained from get_table has gone back through release_table exactly once and never through free();
+    every buffer the library allocated has been freed exactly once and never handed to release_table."""
+    import itertools
+    from . import ordint as O
+    T = 'graphite2::Face::Table'
+    ctor = [f for f in fx.fns_named(T + '::Table') if 'const graphite2::Face &' in f.f['sig']][0]
+    mctor = [f for f in fx.fns_named(T + '::Table') if '&&' in f.f['sig']]
+    dtor = fx.fns_named(T + '::~Table')[0]
+    assign = fx.fns_named(T + '::operator=')[0]
+    PF, PT, PO = 'graphite2::Face::', T + '::', 'gr_face_ops::'
+    VERSION = 0x00050000
+    cases = 0
+
+    def scenario(gt, chk, needs, scheme, lzok, vermatch):
+        log = {'released': [], 'freed': [], 'obtained': [], 'allocated': []}
+
+        def get_table(I, f, e, obj, a):
+            if not gt:
+                return O.Ptr(None)
+            hdr = (scheme << 27) | 16
+            v = O.Vec([VERSION if needs else VERSION - 1, hdr, 0, 0, 0, 0, 0, 0])
+            log['obtained'].append(v)
+            ln = I.rv(a[2]) if len(a) > 2 else None
+            if isinstance(ln, O.PtrLV):
+                ln.lv.store(32)
+            return O.It(v, 0)
+
+        def release_table(I, f, e, obj, a):
+            p_ = I.rv(a[1])
+            log['released'].append(p_.vec if isinstance(p_, O.It) else None)
+            return None
+
+        def free_(I, f, e, obj, a):
+            p_ = I.rv(a[0])
+            if isinstance(p_, O.It):
+                log['freed'].append(p_.vec)
+            return None
+
+        def gralloc(I, f, e, obj, a):
+            v = O.Vec([0] * 8)
+            log['allocated'].append(v)
+            return O.It(v, 0)
+
+        def lz4(I, f, e, obj, a):
+            out, osz = I.rv(a[2]), I.rv(a[3])
+            if lzok and isinstance(out, O.It):
+                out.vec.items[0] = VERSION if (vermatch and needs) else 7
+                return osz
+            return -1
+
+        def be_read(I, f, e, obj, a):
+            lv = a[0]
+            p_ = lv.load() if isinstance(lv, O.LV) else I.rv(lv)
+            v = I.deref_it(p_, f, e).load()
+            if isinstance(lv, O.LV):
+                lv.store(O.It(p_.vec, p_.idx + 1, p_.gen))
+            return v
+        nat = {'graphite2::TtfUtil::CheckTable': lambda I, f, e, obj, a: bool(chk and gt), 'free': free_, 'graphite2::gralloc': gralloc, 'memset': lambda I, f, e, obj, a: None,
+               'lz4::decompress': lz4, 'be::read': be_read}
+        ops = O.Rec({PO + 'size': 24, PO + 'get_table': get_table, PO + 'release_table': release_table})
+        face = O.Rec({PF + 'm_ops': ops, PF + 'm_appFaceHandle': O.Ptr(O.Rec())})
+        return log, nat, face
+
+    def mk():
+        return O.Rec({PT + '_f': O.Ptr(None), PT + '_p': O.Ptr(None), PT + '_sz': 0, PT + '_compressed': False})
+    combos = list(itertools.product((False, True), (False, True), (False, True), (0, 1, 2), (False, True), (False, True)))
+    for gt, chk, needs, scheme, lzok, vermatch in combos:
+        for other in (None, 'plain', 'compressed'):
+            log, nat, face = scenario(gt, chk, needs, scheme, lzok, vermatch)
+            desc = 'get_table %s, CheckTable %s, version word %s decompression, scheme %s, decoder %s, decoded version %s%s' % (
+                'answers' if gt else 'gives null', 'accepts' if chk else 'rejects', 'asks for' if needs else 'does not ask for', ('NONE', 'LZ4', 'unknown')[scheme],
+                'succeeds' if lzok else 'fails', 'matches' if vermatch else 'differs', '' if other is None else '; then moved over a table holding a %s buffer' % other)
+            cases += 1
+            try:
+                it = O.Interp(fx, natives=nat)
+                it.MAX_STEPS = 20000
+                it.run_user_copies = True          # Table's move constructor nulls the source: it must run, not be modelled as a field-wise copy
+                t1 = mk()
+                it.call(ctor, t1, [face, O.Rec({'graphite2::TtfUtil::Tag::_v': 0x53696c66}), VERSION])
+                if other is not None:
+                    t2 = mk()
+                    t2[PT + '_f'] = O.Ptr(face)
+                    ov = O.Vec([1, 2, 3, 4])
+                    t2[PT + '_p'] = O.It(ov, 0)
+                    t2[PT + '_sz'] = 16
+                    t2[PT + '_compressed'] = (other == 'compressed')
+                    log['obtained' if other == 'plain' else 'allocated'].append(ov)
+                    it.call(assign, t2, [t1])
+                    it.call(dtor, t2, [])
+                it.call(dtor, t1, [])
+            except O.Violation as v:
+                return cases, '%s: %s (%s)' % (desc, v.what, v.loc)
+            for v in log['obtained']:
+                nrel = sum(1 for x in log['released'] if x is v)
+                if any(x is v for x in log['freed']):
+                    return cases, '%s: a buffer obtained from get_table is passed to free()' % desc
+                if nrel != 1:
+                    return cases, '%s: a buffer obtained from get_table is handed to release_table %d time(s)' % (desc, nrel)
+            for v in log['allocated']:
+                nfr = sum(1 for x in log['freed'] if x is v)
+                if any(x is v for x in log['released']):
+                    return cases, '%s: a buffer the library allocated is handed to the application\'s release_table' % desc
+                if nfr != 1:
+                    return cases, '%s: a buffer the library allocated is freed %d time(s)' % (desc, nfr)
+    return cases, None
